@@ -46,12 +46,16 @@ impl Markers {
         self.n += 1;
         let m = format!("mk_{}", self.n);
         self.once.push(m.clone());
-        match t.weighted(&[3, 2, 2, 1, 1]) {
+        match t.weighted(&[3, 2, 2, 1, 1, 1, 1, 1]) {
             0 => format!("#[{m}]"),
             1 => format!("#[{m}(key = \"v\", [1, 2])]"),
             2 => format!("#[doc = \"{m}\"]"),
             3 => format!("#[a::b::{m}]"),
-            _ => format!("#[allow({m})]"),
+            4 => format!("#[allow({m})]"),
+            // conditional attributes are attributes of the fn like any other (only `cfg` itself is mirrored)
+            5 => format!("#[cfg_attr(all(), {m})]"),
+            6 => format!("#[cfg_attr(test, {m}::attr(skip(deps)))]"),
+            _ => format!("#[cfg_attr(any(), {m})]"),
         }
     }
     fn some(&mut self, t: &mut Tape, max: usize) -> Vec<String> {
